@@ -196,7 +196,13 @@ func c14Verdict(cs c14Case, tables []c14Table, t *harness.Trace) (fp, what strin
 		if o.Local != "menu-select" {
 			// only the transition that closes the menu is judged (acceptance by typing, ESC,
 			// Backspace...): afterwards the keys are ordinary editing
-			if prev := call.Waits[i-1].Obs; prev == nil || prev.Local != "menu-select" {
+			prev := call.Waits[i-1].Obs
+			if prev == nil || prev.Local != "menu-select" {
+				continue
+			}
+			if prev.Line == string(B) && prev.Pos == c {
+				// the menu was open without any candidate inserted (menu-complete-display-prefix, or a
+				// cancelled selection): the key that closes it is an ordinary edit of the original buffer
 				continue
 			}
 			if !(len(L) >= w0 && string(L[:w0]) == string(B[:w0])) {
